@@ -83,7 +83,12 @@ func runCLI(dir string, args []string, stdin string, env []string) cliResult {
 	cmd.Env = append([]string{"PATH=" + os.Getenv("PATH"), "HOME=" + dir}, env...)
 	var so, se bytes.Buffer
 	cmd.Stdout, cmd.Stderr = &so, &se
-	if stdin != "" {
+	if stdin == "\x00DIR" {
+		if d, err := os.Open(dir); err == nil {
+			defer d.Close()
+			cmd.Stdin = d
+		}
+	} else if stdin != "" {
 		cmd.Stdin = strings.NewReader(stdin)
 	} else {
 		devnull, _ := os.Open(os.DevNull)
@@ -104,25 +109,27 @@ func runCLI(dir string, args []string, stdin string, env []string) cliResult {
 }
 
 type cliCase struct {
-	label       string
-	flags       string // help | version | err | ok
-	args        []string
-	stdin       string
-	env         []string
-	config      string // content of .config in the working directory ("" = none)
-	format      string
-	split       bool
-	reqText     string
-	reqJ        *jnode // nil = not JSON
-	user, pw    string
-	key         string
-	auth        replySpec
-	users       []replySpec
-	needsDev    bool
-	mustFail    bool           // the scenario contains a connection / authentication / protocol failure
-	replyMs     []rscp.Message // the one reply of an unsplit healthy exchange, for the Go-side output oracle of C13
-	mustSucceed bool           // valid options, valid request, a device that answers everything: status 0 and a document
-	anyOutcome  bool           // the model's prediction is not compared (the outcome depends on the environment); the contract is still judged
+	label            string
+	flags            string // help | version | err | ok
+	args             []string
+	stdin            string
+	env              []string
+	config           string // content of .config in the working directory ("" = none)
+	format           string
+	split            bool
+	reqText          string
+	reqJ             *jnode // nil = not JSON
+	user, pw         string
+	key              string
+	auth             replySpec
+	users            []replySpec
+	needsDev         bool
+	mustFail         bool           // the scenario contains a connection / authentication / protocol failure
+	replyMs          []rscp.Message // the one reply of an unsplit healthy exchange, for the Go-side output oracle of C13
+	mustSucceed      bool           // valid options, valid request, a device that answers everything: status 0 and a document
+	stdinDir         bool           // standard input is a directory (reading it fails)
+	checkSplitOutput bool           // replyMs is the concatenation of the replies of a split run
+	anyOutcome       bool           // the model's prediction is not compared (the outcome depends on the environment); the contract is still judged
 }
 
 func (c *cliCase) op() string {
@@ -189,7 +196,20 @@ func cliExec(rundir string, n int, c *cliCase) (impl, prop string) {
 			args[i] = p
 		}
 	}
-	r := runCLI(dir, args, c.stdin, env)
+	for i, a := range args {
+		if a == "{SOCKET}" {
+			sp := filepath.Join(dir, "sock")
+			if l, err := net.Listen("unix", sp); err == nil {
+				defer l.Close()
+			}
+			args[i] = sp
+		}
+	}
+	stdin := c.stdin
+	if c.stdinDir {
+		stdin = "\x00DIR"
+	}
+	r := runCLI(dir, args, stdin, env)
 	var frames []string
 	if dev != nil {
 		time.Sleep(10 * time.Millisecond)
@@ -231,10 +251,12 @@ func cliExec(rundir string, n int, c *cliCase) (impl, prop string) {
 				break
 			}
 		}
+	case r.status == 0 && c.mustSucceed && dev != nil && len(frames) != 1+len(c.users):
+		prop = fmt.Sprintf("FAIL C15 a run of %d exchange(s) put %d frames on the wire (one authentication and one frame per exchange are due): %s", len(c.users), len(frames), trunc(strings.Join(frames, " , "), 160))
 	case r.status == 0:
 		if !docOK {
 			prop = "FAIL C15 status 0 without exactly one JSON document on standard output: " + trunc(r.stdout, 80) + " ;; FAIL C13 the output is not one valid JSON document: " + trunc(r.stdout, 80)
-		} else if c.replyMs != nil && !c.split {
+		} else if c.replyMs != nil && (!c.split || c.checkSplitOutput) {
 			f := c.format
 			if f == "" {
 				f = "jsonmerged"
@@ -448,6 +470,7 @@ func init() {
 		for k, m := range []rscp.Message{{Tag: rscp.RSCP_AUTHENTICATION_PASSWORD, DataType: rscp.CString, Value: "not-masked-in-output"},
 			{Tag: rscp.RSCP_REQ_SET_ENCRYPTION_PASSPHRASE, DataType: rscp.CString, Value: "phrase"},
 			{Tag: rscp.BAT_DATA, DataType: rscp.Error, Value: rscp.RscpError(2)}, {Tag: rscp.BAT_DATA, DataType: rscp.Error, Value: rscp.RscpError(77)},
+			{Tag: rscp.BAT_DATA, DataType: rscp.Error, Value: rscp.RscpError(4)}, {Tag: rscp.EMS_POWER_PV, DataType: rscp.Error, Value: rscp.RscpError(4)},
 			{Tag: rscp.RSCP_GENERAL_ERROR, DataType: rscp.Error, Value: rscp.RscpError(7)}} {
 			for _, f := range []string{"json", "jsonsimple", "jsonmerged"} {
 				for _, split := range []bool{false, true} {
@@ -487,6 +510,46 @@ func init() {
 				c.args = append(c.args, "-splitrequests", c.reqText)
 				add(c)
 			}
+		}
+		// a split run whose replies all arrive under the same container tag (three batteries asked one after the other):
+		// the merged output holds all of them, like the unsplit run
+		for _, f := range []string{"jsonmerged", "jsonsimple", "json"} {
+			c := base("split run, same container tag in every reply")
+			c.format, c.split, c.mustSucceed = f, true, true
+			mkReq(c, 3, true)
+			var all []rscp.Message
+			c.users = nil
+			for k := 0; k < 3; k++ {
+				m := rscp.Message{Tag: rscp.BAT_DATA, DataType: rscp.Container, Value: []rscp.Message{{Tag: rscp.BAT_INDEX, DataType: rscp.UInt16, Value: uint16(k)}, {Tag: rscp.BAT_RSOC, DataType: rscp.Float32, Value: float32(40 + k)}}}
+				all = append(all, m)
+				c.users = append(c.users, frameReply([]rscp.Message{m}))
+			}
+			c.replyMs, c.checkSplitOutput = all, true
+			c.args = append(c.args, "-output", f, "-splitrequests", c.reqText)
+			add(c)
+		}
+		// the configuration file option pointing at things that are no readable file; standard input that cannot be read:
+		// a diagnostic on standard error and a non-zero status, never silence, never a trace
+		for _, cfgPath := range []string{"/proc/self/mem", "/dev/null", "/", "/nonexistent/dir/file", "{SOCKET}"} {
+			c := base("config option pointing at " + cfgPath)
+			c.args = append([]string{"-config", cfgPath}, c.args...)
+			ms := mkReq(c, 1, true)
+			answers(c, ms)
+			c.args = append(c.args, c.reqText)
+			c.anyOutcome = true
+			add(c)
+		}
+		{
+			c := base("standard input is a directory")
+			ms := mkReq(c, 1, true)
+			answers(c, ms)
+			c.stdinDir, c.anyOutcome = true, true
+			add(c)
+			c = base("standard input is a directory, -help given")
+			c.args = append(c.args, "-help")
+			c.stdinDir, c.anyOutcome = true, true
+			c.needsDev = false
+			add(c)
 		}
 		// unusual but legal user names and passwords on the command line
 		for _, v := range []string{"@home", "@", "a@", "user@example.org", "ä€", "%s%d", "a b", "-"} {
